@@ -104,6 +104,11 @@ type Engine struct {
 	Sentinels  []string // gv names that keep their own error class
 	focusCache map[term.ID]bool
 	plainMerge bool
+
+	globals        map[string]term.ID
+	globalsDone    map[string]bool
+	mutatedGlobals map[string]bool
+	globalInit     map[string]ssa.Value
 }
 
 type siteKey struct {
